@@ -352,3 +352,6 @@ mod test {
         t::<true>();
     }
 }
+
+#[cfg(kani)]
+pub(crate) mod verif_kani;
